@@ -145,6 +145,7 @@ type relOutcome struct {
 	probed   bool   // there was a file to probe
 	returned bool   // the call returned at all
 	hit      bool   // an injected fault hit a call
+	identity string // same | removed | replaced | "" (there was no file before the call)
 }
 
 // probeLock: can another process (this one) take the exclusive lock right now?
@@ -210,6 +211,7 @@ func runRelCase(self, work string, c relCase) (relOutcome, error) {
 	if c.Close2 {
 		env = append(env, "LF_CLOSE2=1")
 	}
+	d0, i0, had := statKey(path)
 	ctx, cancel := context.WithTimeout(context.Background(), 60*time.Second)
 	defer cancel()
 	var cmd *exec.Cmd
@@ -271,6 +273,17 @@ func runRelCase(self, work string, c relCase) (relOutcome, error) {
 		}
 	}
 	ro.held, ro.probed = probeLock(path)
+	if had {
+		d1, i1, have := statKey(path)
+		switch {
+		case !have:
+			ro.identity = "removed"
+		case d0 != d1 || i0 != i1:
+			ro.identity = "replaced"
+		default:
+			ro.identity = "same"
+		}
+	}
 	in.Close()
 	waitLine(rd, 10*time.Second) // RESULT
 	cmd.Wait()
@@ -322,6 +335,12 @@ func (rn *runner) relOne(c relCase) {
 		// C06_no_file_without_lock: no success unless the lock request succeeded
 		rn.violate("impl-violation", "release:success-although-the-lock-request-failed", "release nolock "+c.Call,
 			"the lock request (flock) failed with ENOLCK, yet the call reported success: "+c.key(), impl, "err (C06_no_file_without_lock)", c.input())
+	}
+	if ro.identity == "removed" || ro.identity == "replaced" {
+		// the model gives every client ONE inode for its path; the lock lives on the inode
+		rn.violate("impl-violation", "identity:path-no-longer-names-the-locked-file", "release identity "+c.Call,
+			fmt.Sprintf("after the call returned (%s) the file under the path was %s: callers already queued on the old file and newcomers on the path no longer exclude each other (%s)", outc, ro.identity, c.key()),
+			impl, "same file", c.input())
 	}
 	if ro.held {
 		rn.violate("impl-violation", "release:lock-still-held-after-return", "release held "+c.Call,
